@@ -66,6 +66,14 @@ def scenarios(tier):
                     bound = 1
                 jobs.append((scn, bound, 40 if quick else 900, 1,
                              '%s/%s' % (name, tag), ai))
+                has_join = any(t.get('join') for t in prog['tasks'].values())
+                if has_join and not cc and (ai == 0 or not quick):
+                    # third mode: the real DefaultScheduler instead of the
+                    # legacy one (refresh jobs run through its dispatcher)
+                    jobs.append((common.variant(scn, '/dm',
+                                                scheduler='default_mem'),
+                                 2 if quick else 3, 40 if quick else 900, 1,
+                                 '%s/%s' % (name, tag), ai))
     jobs.sort(key=lambda j: j[5])
     return jobs
 
@@ -73,7 +81,7 @@ def scenarios(tier):
 def main(tier):
     rep = common.Report(PROP, tier)
     jobs = scenarios(tier)
-    deadline = time.time() + (150 if tier == 'quick' else 3000)
+    deadline = time.time() + (200 if tier == 'quick' else 3000)
     res = common.parallel_map(common.explore_job, [j[:4] for j in jobs],
                               deadline=deadline)
     rep.add_explore_results(jobs, res)
@@ -100,19 +108,25 @@ def main(tier):
     for gname, lst in groups.items():
         modes = {}
         for k, p, scn in lst:
-            modes.setdefault(scn.clear_caches, (k, p, scn))
-        if len(modes) == 2:
+            modes.setdefault((scn.clear_caches, scn.scheduler), (k, p, scn))
+        base = modes.get((False, 'legacy'))
+        for mk, (kb, pb, sb) in sorted(modes.items()):
+            if base is None or mk == (False, 'legacy'):
+                continue
             n_pairs += 1
-            (ka, pa, sa), (kb, pb, sb) = modes[False], modes[True]
+            ka, pa, sa = base
             if ka != kb:
+                what = 'the specification caches are dropped between ' \
+                       'events' if mk[0] else \
+                       'jobs run through the DefaultScheduler instead of ' \
+                       'the legacy scheduler'
                 rep.violations.append({
                     'scenario': gname, 'kind': 'differential',
-                    'message': 'outcome differs when the specification '
-                               'caches are dropped between events: %s VS %s'
-                               % (ka[:500], kb[:500]),
+                    'message': 'outcome differs when %s: %s VS %s'
+                               % (what, ka[:500], kb[:500]),
                     'path': pa, 'path_b': pb, 'spec_b': sb.spec(),
                     '_scn': sa})
-    rep.extra = {'cache_mode_pairs_compared': n_pairs,
+    rep.extra = {'mode_pairs_compared': n_pairs,
                  'non_confluent_programs_excluded': 'see rule'}
     rep.assumptions = [
         'confluence is decided by the reference model (exactly one allowed '
